@@ -635,7 +635,14 @@ func (s *JavaFullListener) EnterExpression(ctx *parser.ExpressionContext) {
 
 		fullType, _ := WarpTargetFullType(targetType)
 
-		position := BuildPosition(ctx.BaseParserRuleContext, text)
+		// like the position of a call: the referenced method's identifier, columns in characters
+		identifier := ctx.Identifier().GetStart()
+		position := core_domain.CodePosition{
+			StartLine:         identifier.GetLine(),
+			StartLinePosition: identifier.GetColumn(),
+			StopLine:          identifier.GetLine(),
+			StopLinePosition:  identifier.GetColumn() + utf8.RuneCountInString(methodName),
+		}
 
 		jMethodCall := &core_domain.CodeCall{
 			Package:      RemoveTarget(fullType),
